@@ -125,6 +125,14 @@ func (v *Variant) FreshSchema() *ytypes.Schema {
 	return s
 }
 
+// InitError loads the goyang schema and builds the struct table once, like MustInit, but returns the
+// error: the table is built by matching the generated code against the YANG source, so an error means
+// that the two do not correspond, which is a finding for the checks whose subject is that correspondence.
+func (v *Variant) InitError() error {
+	v.once.Do(func() { v.initErr = v.init() })
+	return v.initErr
+}
+
 // MustInit loads the goyang schema and builds the struct table once.
 func (v *Variant) MustInit() {
 	v.once.Do(func() { v.initErr = v.init() })
